@@ -58,7 +58,7 @@ def main():
                 print("FALSE-ALARM benign %-12s %s" % (f, json.dumps({p: (v.get("violations") or ["INTERNAL"])[:3] for p, v in fired.items()})[:600]))
                 rows.append({"kind": "benign", "name": f, "outcome": "FALSE-ALARM", "props": sorted(fired)})
             else:
-                print("SILENT     benign %-12s (18 checks)" % f)
+                print("SILENT     benign %-12s (%d checks)" % (f, len(res["props"])))
                 rows.append({"kind": "benign", "name": f, "outcome": "SILENT"})
     if what in ("seeded", "all"):
         d = os.path.join(VERIF, "seeded")
